@@ -130,29 +130,35 @@ pub fn c06_register_two_descriptors_other_shapes() {
     two_desc_case(2, 2);
 }
 
-/// unregister from an arbitrary state: succeeds exactly for the live collector, whose ids are
-/// then free again; the name -> dimension map is untouched either way.
+/// unregister of the live collector from an arbitrary state: succeeds, its ids are free again
+/// (a descriptor with one of them can be registered), the name -> dimension map is untouched.
 #[cfg_attr(kani, kani::proof, kani::unwind(6), kani::stub(std::fmt::format, fmt_stub))]
-pub fn c06_unregister_step() {
+pub fn c06_unregister_live_collector_step() {
+    let mut core = RegistryCore::default();
+    let p = pre_state(&mut core);
+    let swap = any_bool();
+    let (i1, i2) = if swap { (p.ids[1], p.ids[0]) } else { (p.ids[0], p.ids[1]) };
+    let r = core.unregister(Box::new(Coll { descs: vec![mk(name(0), i1, 0), mk(name(1), i2, 0)] }));
+    assert!(r.is_ok(), "C06 unregister succeeds for a currently registered collector");
+    assert!(core.collectors_by_id.len() == 0 && core.desc_ids.len() == 0, "C06 its descriptors are free again");
+    assert!(core.dim_hashes_by_name.len() == 2, "C06 dimensions ever registered are kept");
+    let again = core.register(Box::new(Coll { descs: vec![mk(name(0), i1, p.dims[0])] }));
+    assert!(again.is_ok(), "C06 an unregistered collector's descriptor can be registered again");
+    std::mem::forget(again);
+    std::mem::forget(r);
+    std::mem::forget(core);
+}
+/// unregister of a collector that is not registered (symbolic ids): fails, nothing changes.
+#[cfg_attr(kani, kani::proof, kani::unwind(6), kani::stub(std::fmt::format, fmt_stub))]
+pub fn c06_unregister_unknown_collector_step() {
     let mut core = RegistryCore::default();
     let p = pre_state(&mut core);
     let (i1, i2) = (any_u64(), any_u64());
     assume(i1 != i2);
-    let r = core.unregister(Box::new(Coll { descs: vec![mk(String::from("a"), i1, 0), mk(String::from("b"), i2, 0)] }));
-    let is_live = i1.wrapping_add(i2) == p.ckey;
-    // same collector = same descriptor set (key collisions between different sets are hash collisions)
-    assume(!is_live || (i1 == p.ids[0] && i2 == p.ids[1]) || (i1 == p.ids[1] && i2 == p.ids[0]));
-    vcover!(is_live, "c06.unreg: the live collector");
-    assert!(r.is_ok() == is_live, "C06 unregister succeeds exactly for a currently registered collector");
-    if r.is_ok() {
-        assert!(core.collectors_by_id.len() == 0 && core.desc_ids.len() == 0, "C06 its descriptors are free again");
-        let again = core.register(Box::new(Coll { descs: vec![mk(name(p.names[0]), i1, p.dims[0])] }));
-        assert!(again.is_ok(), "C06 an unregistered collector's descriptor can be registered again");
-        std::mem::forget(again);
-    } else {
-        assert!(state_unchanged(&core, &p), "C06 a failed unregister changes nothing");
-    }
-    assert!(core.dim_hashes_by_name.len() == 2, "C06 dimensions ever registered are kept");
+    assume(i1.wrapping_add(i2) != p.ckey); // a different descriptor set with the same key is a hash collision
+    let r = core.unregister(Box::new(Coll { descs: vec![mk(name(0), i1, 0), mk(name(1), i2, 0)] }));
+    assert!(r.is_err(), "C06 unregister fails for a collector that is not registered");
+    assert!(state_unchanged(&core, &p), "C06 a failed unregister changes nothing");
     std::mem::forget(r);
     std::mem::forget(core);
 }
@@ -188,7 +194,8 @@ pub fn dispatch(name: &str) -> Option<fn()> {
         "c06_register_one_descriptor_step" => c06_register_one_descriptor_step,
         "c06_register_two_descriptors_new_then_known" => c06_register_two_descriptors_new_then_known,
         "c06_register_two_descriptors_other_shapes" => c06_register_two_descriptors_other_shapes,
-        "c06_unregister_step" => c06_unregister_step,
+        "c06_unregister_live_collector_step" => c06_unregister_live_collector_step,
+        "c06_unregister_unknown_collector_step" => c06_unregister_unknown_collector_step,
         "c06_same_collector_twice_and_gather" => c06_same_collector_twice_and_gather,
         _ => return None,
     })
